@@ -1,1 +1,3 @@
-pub fn x(){}
+pub mod driver;
+pub mod gen;
+pub mod oracle;
